@@ -30,14 +30,14 @@ from .. import core, duet, wire, hdrmodel
 
 LEVEL = 'exploration'
 RULE = ('random duet programs of 20-160 steps: requests, informational / final responses, DATA with and without padding, trailers, END_STREAM, resets, '
-        'pushes and pushed responses, pings, PRIORITY, SETTINGS changes (one frame in flight per endpoint) racing traffic, manual and automatic '
+        'pushes and pushed responses, pings, PRIORITY, SETTINGS changes (up to three frames in flight per endpoint) racing traffic, manual and automatic '
         'window updates, deliberately failing calls, GOAWAY; delivery of random-length prefixes of either pipe between steps; non-trivial = at '
         'least 10 messages arrived and were compared, with at least one mid-frame chunk boundary; distinct = hash of the op list')
 MINIMA = {'messages_arrived_and_compared': 100000, 'receive_calls_compared': 60000, 'mid_frame_deliveries': 10000, 'failing_calls_checked_silent': 5000,
           'msg:headers:request': 5000, 'msg:headers:final': 3000, 'msg:headers:informational': 300, 'msg:headers:trailers': 500, 'msg:data': 8000,
           'msg:rst': 1000, 'msg:push': 500, 'msg:ping': 1000, 'msg:priority': 500, 'msg:settings': 1000, 'msg:window_update': 2000,
           'msg:goaway': 100, 'auto:settings_ack': 1000, 'auto:ping_ack': 1000, 'auto:window_update': 300,
-          'arrived_on_locally_reset_stream_expect_silence': 300, 'settings_in_flight_while_traffic_arrives': 1000}
+          'arrived_on_locally_reset_stream_expect_silence': 300, 'settings_in_flight_while_traffic_arrives': 1000, 'settings_frames_overlapping_in_flight': 500}
 EXHAUSTIVE = {}
 
 TOKENS = [b'x-a', b'X-Mixed-Case', b'accept', b'user-agent', b'cookie', b'cookie', b'content-type', b'etag', b'authorization', b'x-long-header-name']
@@ -597,8 +597,10 @@ def run_case(idx, rng, tier, rep):
 
     def op_settings(x):
         X = sides[x]
-        if X.unacked_settings:
+        if len(X.unacked_settings) >= 3:
             return False
+        if len(X.unacked_settings) >= 1:
+            rep.count('settings_frames_overlapping_in_flight')
         choices = {wire.S_HEADER_TABLE_SIZE: [0, 100, 4096, 8192], wire.S_MAX_CONCURRENT_STREAMS: [1, 2, 5, 100],
                    wire.S_INITIAL_WINDOW_SIZE: [0, 100, 1000, 65535, 100000], wire.S_MAX_FRAME_SIZE: [16384, 20000, 65536],
                    wire.S_MAX_HEADER_LIST_SIZE: [65536, 2 ** 20]}
